@@ -313,9 +313,10 @@ def run(ctx):
         conv = StampConv('mapping')
         for target, data, should in ((list, [1], True), (t.List[int], [1], False), (int, 5, True), (dict, {'a': 1}, True),
                                      (t.Dict[str, int], {'a': 1}, False), (t.Optional[int], 5, True), (t.List[list], [[1]], True),
-                                     (ListSub, [1], False), (t.Tuple[int, ...], [1], False)):
+                                     (ListSub, [1], False), (t.Tuple[int, ...], [1], False), (t.List[t.Any], [1], False),
+                                     (list[t.Any], [1], False), (t.Dict[t.Any, t.Any], {'a': 1}, False)):
             key = {list: list, t.List[int]: list, int: int, dict: dict, t.Dict[str, int]: dict, t.Optional[int]: int, t.List[list]: list,
-                   ListSub: list, t.Tuple[int, ...]: tuple}[target]
+                   ListSub: list, t.Tuple[int, ...]: tuple, t.List[t.Any]: list, list[t.Any]: list, t.Dict[t.Any, t.Any]: dict}[target]
             out = observe(env.from_data, data, target, custom={key: conv})
             ctx.count('exact_type_rule_checks')
             ctx.case(('exact-type', str(target), should, out.kind))
@@ -356,3 +357,54 @@ def run(ctx):
                 return
 
     drive.for_each_case(ctx, 'edit', 30, body_edit, gen=lambda c, r: Ty('int'))
+
+    # one handler function used at two levels in one process: as an enclosing class's custom= and, later (or earlier),
+    # as the call-level custom= of a direct conversion of the inner class - the level decides who wins, not the history
+    def body_levels(i, rng, ty, T):
+        P = Plain
+        conv_h, conv_own = StampConv('H'), StampConv('own')
+
+        def h(ty_, args, *, handlers):
+            return conv_h if ty_ is P else NotImplemented
+
+        def own(ty_, args, *, handlers):
+            return conv_own if ty_ is P else NotImplemented
+
+        Inner = mk_class(f"IN{next(_serial)}", P, {'custom': own})
+        Outer = mk_class(f"OUT{next(_serial)}", Inner, {'custom': h})
+        steps = [('via-outer', lambda: env.from_data({'f': {'f': 'x'}}, Outer), lambda r: r.f.f, 'own'),
+                 ('direct-with-call-level', lambda: env.from_data({'f': 'x'}, Inner, custom=h), lambda r: r.f, 'H'),
+                 ('direct-plain', lambda: env.from_data({'f': 'x'}, Inner), lambda r: r.f, 'own')]
+        rng.shuffle(steps)
+        hist = []
+        for name, call, leaf, expect in steps + steps[:2]:
+            o = observe(call)
+            got = leaf(o.val).source if o.kind == 'value' and isinstance(leaf(o.val), Stamp) else o.brief()
+            hist.append((name, got))
+            ctx.count('level_history_steps')
+            ctx.case(('levels', name, got))
+            if got != expect:
+                ctx.violation('precedence', 'levels', i, {'history': hist, 'step': name, 'expected_winner': expect}, mech=f"handler-level-history:{name}")
+                return
+
+    drive.for_each_case(ctx, 'levels', 30, body_levels, gen=lambda c, r: Ty('int'))
+
+    # Any-typed mapping positions in the serialising direction: whatever reach call-level handlers have there, keys and
+    # values of one mapping are treated alike (the statement does not say more about Any; it does say "every depth")
+    def body_anykeys(i, rng, ty, T):
+        conv = StampConv('call')
+        stamped = lambda x: isinstance(x, (list, tuple)) and len(x) == 3 and x[0] == 'out' and x[1] == 'call'
+        for target in (t.Dict[t.Any, t.Any], dict, t.Mapping[t.Any, t.Any], t.Dict[t.Any, str], t.Dict[str, t.Any]):
+            o = observe(env.into_data, {'k': 'v'}, target, custom={str: conv})
+            ctx.count('any_position_checks')
+            ctx.case(('any-position', str(target), o.kind))
+            if o.kind != 'value' or len(o.val) != 1:
+                ctx.violation('handlers-reach-every-depth', 'anykeys', i, {'type': str(target), 'into_data': o.brief()}, mech='any-typed-mapping-failed')
+                continue
+            (k_, v_), = o.val.items()
+            if stamped(k_) != stamped(v_):
+                ctx.violation('handlers-reach-every-depth', 'anykeys', i,
+                              {'type': str(target), 'value': "{'k': 'v'}", 'custom': '{str: stamp}', 'into_data': short(o.val), 'key_served': stamped(k_), 'value_served': stamped(v_)},
+                              mech='mapping-key-and-value-treated-differently')
+
+    drive.for_each_case(ctx, 'anykeys', 10, body_anykeys, gen=lambda c, r: Ty('int'))
